@@ -1,6 +1,7 @@
 package main
 
 import (
+	"go/types"
 	"sort"
 	"go/constant"
 	"fmt"
@@ -395,6 +396,110 @@ func runC13(e *Engine, r *Report, tier string) {
 	}
 	if nbond < 2 {
 		r.Fail("R2", "bonding functions", "", fmt.Sprintf("UNRESOLVED-ANCHOR: %d functions delegate and record an oracle (bond, add-delegate expected)", nbond))
+	}
+
+	// --- R3 the delegate account is derived from the oracle address AND the chain module's name: one oracle account bonded on
+	// two bridge chains must get two delegate accounts, or the two stakes are pooled (one chain's unbond pays out both)
+	if da := e.findFn(func(f *ssa.Function) bool {
+		return canonName(f.Name()) == "GetDelegateAddress" && f.Signature.Recv() != nil && strings.HasSuffix(namedTypeName(f.Signature.Recv().Type()), "types.Oracle")
+	}); da == nil {
+		r.Fail("R3", "delegate-account derivation", "", "UNRESOLVED-ANCHOR: no GetDelegateAddress on the oracle record")
+	} else {
+		var strPar *ssa.Parameter
+		for _, p := range da.Params {
+			if b, ok := p.Type().Underlying().(*types.Basic); ok && b.Kind() == types.String {
+				strPar = p
+			}
+		}
+		hasAddr, hasMod := false, false
+		var hashed ssa.Value
+		allCalls(da, func(c ssa.CallInstruction) {
+			if strings.HasPrefix(callName(c), "Keccak256") || strings.HasPrefix(callName(c), "Sum") {
+				for _, a := range c.Common().Args {
+					hashed = a
+				}
+			}
+		})
+		seenP := map[ssa.Value]bool{}
+		var parts func(v ssa.Value, d int)
+		parts = func(v ssa.Value, d int) {
+			if v == nil || d > 12 || seenP[v] {
+				return
+			}
+			seenP[v] = true
+			v0 := v
+			v = stripConv(v)
+			if strPar != nil && v == ssa.Value(strPar) {
+				hasMod = true
+				return
+			}
+			switch x := v.(type) {
+			case *ssa.Slice:
+				parts(x.X, d+1)
+			case *ssa.Alloc: // varargs array
+				for _, ref := range *x.Referrers() {
+					if ia, ok := ref.(*ssa.IndexAddr); ok {
+						for _, r2 := range *ia.Referrers() {
+							if st, ok := r2.(*ssa.Store); ok {
+								parts(st.Val, d+1)
+							}
+						}
+					}
+				}
+			case *ssa.MakeSlice:
+				// a buffer filled with copy(): every copy whose destination window is not empty contributes its source
+				allCalls(da, func(c ssa.CallInstruction) {
+					b, ok := c.Common().Value.(*ssa.Builtin)
+					if !ok || b.Name() != "copy" || len(c.Common().Args) != 2 {
+						return
+					}
+					dst := c.Common().Args[0]
+					if sl, ok := dst.(*ssa.Slice); ok && sl.X == ssa.Value(x) {
+						if sl.Low != nil && sl.High == nil && vkey(sl.Low, 0) == vkey(x.Len, 0) {
+							return // dst[len:] of a buffer of that very length: nothing is copied
+						}
+					} else if dst != ssa.Value(x) {
+						return
+					}
+					parts(c.Common().Args[1], d+1)
+				})
+			case *ssa.Call:
+				if b, ok := x.Call.Value.(*ssa.Builtin); ok && b.Name() == "append" {
+					for _, a := range x.Call.Args {
+						parts(a, d+1)
+					}
+					return
+				}
+				if n, _, ok := fieldNameOfLoad(stripConv(v0)); ok && n == "OracleAddress" {
+					hasAddr = true
+				}
+				// accessor of the record (GetOracle()) or a conversion of a field
+				for _, a := range callArgs(x) {
+					if a == ssa.Value(da.Params[0]) {
+						hasAddr = true
+					}
+					parts(a, d+1)
+				}
+			case *ssa.UnOp:
+				if n, _, ok := fieldName(x.X); ok && n == "OracleAddress" {
+					hasAddr = true
+				}
+			case *ssa.Phi:
+				for _, ed := range x.Edges {
+					parts(ed, d+1)
+				}
+			}
+		}
+		parts(hashed, 0)
+		ck := e.CanonFnKey(da) + " derivation"
+		switch {
+		case hashed == nil:
+			r.Fail("R3", ck, e.Pos(da.Pos()), "UNRESOLVED-ANCHOR: no hash in the delegate-account derivation")
+		case hasAddr && hasMod:
+			r.Ok("R3", ck, e.Pos(da.Pos()), "hash pre-image contains the oracle address and the module name")
+		default:
+			r.Fail("R3", ck, e.Pos(da.Pos()), fmt.Sprintf("the hashed pre-image of the delegate account does not contain both the oracle address (%v) and the chain module's name (%v): an account bonded as oracle on two bridge chains gets one delegate account, its stakes are pooled and one chain's unbond pays out both", hasAddr, hasMod))
+		}
 	}
 
 	// --- R4 unbond: the penalty leaves the delegate account once
